@@ -56,6 +56,9 @@ M = [
  ("C16-types-lost-when-shim-does-not-pull", "C16 C08", "src/params.rs",
   "        while params.try_next()?.is_some() {}\n        stmt.bound_types = bound_types;\n        Ok(())",
   "        while params.try_next()?.is_some() {}\n        Ok(())"),
+ ("C19-default-on-init-swallows-error", "C19", "src/lib.rs",
+  "        writer.ok()?;\n        Ok(())",
+  "        let _ = writer.ok();\n        Ok(())"),
  ("C17-no-long-data-clear", "C17", "src/lib.rs",
   "                    state.long_data.clear();",
   "                    if stmt == 6 { state.long_data.clear(); }"),
